@@ -2833,10 +2833,11 @@ class LinearOperator(object):
         # Replace the ints with slices, and we'll just squeeze the dimensions later
         squeeze_row = False
         squeeze_col = False
-        if isinstance(row_index, int):
+        # (when the row/column indices are absorbed, _convert_indices_to_tensors handles the ints itself)
+        if isinstance(row_index, int) and not row_col_are_absorbed:
             row_index = slice(row_index, row_index + 1 or None, None)
             squeeze_row = True
-        if isinstance(col_index, int):
+        if isinstance(col_index, int) and not row_col_are_absorbed:
             col_index = slice(col_index, col_index + 1 or None, None)
             squeeze_col = True
 
